@@ -21,12 +21,17 @@ def build(rng, facts, name, pair=None):
             b.kadd(p, 3.0); b.kadd(p, -3.0); b.kadd(p, 0.0); b.kclear(p)
     for v, w in zip(vals, ws): b.kadd(rng.choice(parts), v, w)
     # merge in a random tree shape / order
-    live = list(parts)
+    live = list(parts); args = []
     while len(live) > 1:
         a = live.pop(rng.randrange(len(live))); c = live.pop(rng.randrange(len(live)))
         j0 = b.emit("kobs " + c); b.kmerge(a, c); b.emit("kobs " + c, ("same", j0))       # the argument is unchanged
+        args.append((c, j0))
+        if rng.random() < 0.5 and vals:
+            # ... and stays unchanged when the receiver is written to afterwards (no shared memory); the same value goes to the single sketch
+            v, w = rng.choice(list(zip(vals, ws))); b.kadd(a, v, w); b.kadd("whole", v, w); b.emit("kobs " + c, ("same", j0))
         live.append(a)
     r = live[0]
+    for c, j0 in args: b.emit("kobs " + c, ("same", j0))
     if rng.random() < 0.3:                              # merging an empty sketch is a no-op
         b.knew("e", spec, rng.choice(STORES), rng.choice(STORES)); j0 = b.emit("kobs " + r); b.kmerge(r, "e"); b.emit("kobs " + r, ("same", j0))
     # the merged sketch and the single sketch are observationally identical: same bins (the store kinds differ, the content may not)
